@@ -153,6 +153,9 @@ func samInDomain(s *sam.SAM) bool {
 		if z, ok := v.(string); ok && strings.ContainsAny(z, hasDelims) {
 			return false
 		}
+		if a, ok := v.(byte); ok && strings.IndexByte(hasDelims, a) >= 0 { // an A tag is a one-byte text field
+			return false
+		}
 	}
 	return true
 }
@@ -595,6 +598,46 @@ func runC11(r *core.Run) {
 				return core.Failf("%s decoder on %d bytes of %s: %s", c.Format, len(data), c.Kind, trunc(pr.fail, 300))
 			}
 			return core.Outcome{Class: fmt.Sprintf("%s accepted>0=%v", c.Format, pr.accepted > 0), Nontrivial: true}
+		})
+
+	type slotCase struct {
+		Format   string `json:"format"`
+		Template int    `json:"template"`
+		Byte     int    `json:"byte"`
+		Shape    int    `json:"shape"` // 0: v   1: v v   2: a v b
+	}
+	slotTemplates := map[string][]string{
+		"fasta":  {">a\x00\nAC\n", ">a\nA\x00C\n>b\nG\n", "\x00\n>b\nG\n"},
+		"fastq":  {"@a\x00\nAC\n+\nII\n", "@a\nA\x00\n+\nI\x00\n@b\nC\n+\nI\n", "@a\nAC\n+\x00\nII\n"},
+		"bed":    {"c\x00\t0\t1\tn\x00\n", "c\t0\t1\tn\t0\t\x00\n", "c\t0\t1\tn\t0\t+\t0\t0\t1,2,\x00\n", "c\t\x00\t1\n"},
+		"newick": {"(a\x00,b);", "('a\x00',b);", "('\x00',b)'x\x00y';", "(a:1\x00,b);", "(a,b)\x00;(c);", "(a,b);\x00(c);"},
+		"ncbi":   {" A \x00\nA 1 2\n\x00 3 4\n", " A\nA 1\x00\n", "#\x00\n A\nA 1\n"},
+		"sam":    {"q\x00\t0\tr\x00\t1\t9\t1M\t*\t0\t0\tA\tI\tXZ:Z:\x00\n", "q\t0\tr\t1\t9\t\x00\t\x00\t0\t0\t\x00\t\x00\n", "q\t0\tr\t1\t9\t1M\t*\t0\t0\tA\tI\tXA:A:\x00\n", "@CO\t\x00\nq\t0\tr\t1\t9\t1M\t*\t0\t0\tA\tI\n", "q\t0\tr\t1\t9\t1M\t*\t0\t0\tA\tI\tX\x00:Z:v\n"},
+	}
+	r.Bound("all-bytes-in-templates", "per format 3..6 well-formed templates with a slot in every kind of text position (name, sequence, qualities, plus line, Chrom/Name/strand/RGB, unquoted and quoted Newick labels, lengths, between trees, NCBI labels/scores/comments, SAM text fields, Z/A tag values, tag names, header text): the slot filled with v, v v and a v b for ALL 256 byte values v")
+	core.Clause(r, "all-bytes-in-templates", core.Opts{Rule: "every byte value in every kind of text position of every format: the decoder ends without panic, and every accepted in-domain record is a fixed point of write -> read (a byte the reader gives a meaning to must be one the writer protects); non-trivial = all"},
+		func(emit func(slotCase) bool) {
+			for _, f := range c11Formats {
+				for ti := range slotTemplates[f.name] {
+					for shape := 0; shape < 3; shape++ {
+						for v := 0; v < 256; v++ {
+							if !emit(slotCase{f.name, ti, v, shape}) {
+								return
+							}
+						}
+					}
+				}
+			}
+		},
+		func(c slotCase) core.Outcome {
+			f := c11Format_(c.Format)
+			fill := [][]byte{{byte(c.Byte)}, {byte(c.Byte), byte(c.Byte)}, {'a', byte(c.Byte), 'b'}}[c.Shape]
+			data := bytes.ReplaceAll([]byte(slotTemplates[c.Format][c.Template]), []byte{0}, fill)
+			pr := f.run(data)
+			if pr.fail != "" {
+				return core.Failf("%s decoder on %q: %s", c.Format, data, trunc(pr.fail, 400))
+			}
+			return core.Outcome{Class: fmt.Sprintf("%s accepted>0=%v errors>0=%v", c.Format, pr.accepted > 0, pr.errors > 0), Nontrivial: true}
 		})
 
 	type faLong struct {
